@@ -30,7 +30,7 @@ pub enum Mode {
 }
 
 pub static mut MODE: Mode = Mode::Off;
-/// Number of CAS retries of the call under test.
+/// Number of CAS retries in the current update loop of the call under test.
 pub static mut RETRIES: usize = 0;
 /// Bound on CAS retries under interference (more = outside the claim, see DESIGN.md).
 pub static mut MAX_RETRIES: usize = 2;
@@ -55,6 +55,12 @@ fn pre(addr: *const u8, size: usize, write: bool) {
             return;
         }
         STEPS += 1;
+        if !write {
+            // A load starts a new update loop (load; f; CAS; retry...): the retry bound is per
+            // loop. Resetting here keeps the counter concrete on every path of the loop, so the
+            // bound prunes the unwinding syntactically instead of unwinding to the global bound.
+            RETRIES = 0;
+        }
         if MODE == Mode::Interference {
             if STEPS > FREEZE_AT {
                 STEPS_FROZEN += 1;
@@ -203,3 +209,7 @@ pub fn any_builtin_policy() -> PolicyFn {
 pub fn any_policy() -> PolicyFn {
     if kani::any() { any_builtin_policy() } else { custom_policy }
 }
+
+/// `core::hint::spin_loop` lowers to an LLVM intrinsic Kani does not model; it has no effect on
+/// memory, so the model is empty.
+pub fn spin_loop_model() {}
